@@ -89,203 +89,210 @@ def run(eng, R):
     pm_mixin = p.cls("kafe2.fit._base.model", "ParametricModelBaseMixin")
 
     # ---------------------------------------------------------------- Ctot
-    R.rule("Ctot", "every writer of an input of the cached total error (inputs = transitive read set of _calculate_total_error and of the error "
-                   "reference callable) reaches `self._total_error = None` on all normal paths", 12)
-    inval = cache.direct_invalidation_pred({"_total_error"})
-    for ctx in classes:
-        comp = ctx.find_method("_calculate_total_error")
-        if comp is None:
-            raise AnalysisError("%s has no _calculate_total_error" % ctx.name)
-        inputs = set(eng.eff.trans_reads(ctx, comp))
-        ref = ctx.find_method("_get_error_reference")
-        if ref is not None:
-            inputs |= eng.eff.trans_reads(ctx, ref)
-        inputs = {i for i in inputs if "." not in i} - {"_total_error"} - GUARD_FLAGS
-        inputs -= {"_on_error_change_callback", "_label", "_axis_labels"}
-        R.info["inputs(_total_error) for %s" % ctx.name] = sorted(inputs)
+    with R.guard("Ctot"):
+        R.rule("Ctot", "every writer of an input of the cached total error (inputs = transitive read set of _calculate_total_error and of the error "
+                       "reference callable) reaches `self._total_error = None` on all normal paths", 12)
+        inval = cache.direct_invalidation_pred({"_total_error"})
+        for ctx in classes:
+            comp = ctx.find_method("_calculate_total_error")
+            if comp is None:
+                raise AnalysisError("%s has no _calculate_total_error" % ctx.name)
+            inputs = set(eng.eff.trans_reads(ctx, comp))
+            ref = ctx.find_method("_get_error_reference")
+            if ref is not None:
+                inputs |= eng.eff.trans_reads(ctx, ref)
+            inputs = {i for i in inputs if "." not in i} - {"_total_error"} - GUARD_FLAGS
+            inputs -= {"_on_error_change_callback", "_label", "_axis_labels"}
+            R.info["inputs(_total_error) for %s" % ctx.name] = sorted(inputs)
 
-        def flt(f, s, ctx=ctx):
-            return (ctx.name, f.qualname) not in EXEMPT_TOTAL
+            def flt(f, s, ctx=ctx):
+                return (ctx.name, f.qualname) not in EXEMPT_TOTAL
 
-        cache.check_writers_invalidate(eng, R, "Ctot", ctx, inputs, inval, skip_funcs=("_calculate_total_error",), what="total error cache", site_filter=flt, cache_fields=("_total_error",))
-        for (cn, fq), why in EXEMPT_TOTAL.items():
-            if cn == ctx.name:
-                R.note("exempt from Ctot: %s in %s - %s" % (fq, cn, why))
+            cache.check_writers_invalidate(eng, R, "Ctot", ctx, inputs, inval, skip_funcs=("_calculate_total_error",), what="total error cache", site_filter=flt, cache_fields=("_total_error",))
+            for (cn, fq), why in EXEMPT_TOTAL.items():
+                if cn == ctx.name:
+                    R.note("exempt from Ctot: %s in %s - %s" % (fq, cn, why))
 
     # ---------------------------------------------------------------- Csrc
-    R.rule("Csrc", "every writer of the value store _data re-points or resets the references of the sources of the written axis "
-                   "(per-source covariance caches are only invalidated through the reference setter)", 8)
-    for ctx in classes:
-        for f in cache.visible_functions(ctx):
-            if f.name == "__init__":
-                continue
-            summ = eng.eff.summary(ctx, f)
-            sites = [s for s in summ.sites if s.kind == "w" and s.path == "_data"]
-            if not sites:
-                continue
-            g = eng.cfg(f)
-            for s in sites:
-                need = _written_axes(s)
-                ok, how, wit = _reaches_reset(eng, ctx, f, g, s.node, need, depth=2)
-                R.ob("Csrc", "%s:%s:%s" % (ctx.name, f.qualname, norm_stmt(s.node)[:70]), ok, eng.where(f, s.node),
-                     ("%s (as %s) changes the stored values (%s) without resetting the source references of axis %s: relative sources keep the covariance computed from the old values: %s" % (
-                         f.qualname, ctx.name, norm_stmt(s.node)[:50], need, path_text(f, wit or []))) if not ok else "%s resets references (%s)" % (f.qualname, how))
+    with R.guard("Csrc"):
+        R.rule("Csrc", "every writer of the value store _data re-points or resets the references of the sources of the written axis "
+                       "(per-source covariance caches are only invalidated through the reference setter)", 8)
+        for ctx in classes:
+            for f in cache.visible_functions(ctx):
+                if f.name == "__init__":
+                    continue
+                summ = eng.eff.summary(ctx, f)
+                sites = [s for s in summ.sites if s.kind == "w" and s.path == "_data"]
+                if not sites:
+                    continue
+                g = eng.cfg(f)
+                for s in sites:
+                    need = _written_axes(s)
+                    ok, how, wit = _reaches_reset(eng, ctx, f, g, s.node, need, depth=2)
+                    R.ob("Csrc", "%s:%s:%s" % (ctx.name, f.qualname, norm_stmt(s.node)[:70]), ok, eng.where(f, s.node),
+                         ("%s (as %s) changes the stored values (%s) without resetting the source references of axis %s: relative sources keep the covariance computed from the old values: %s" % (
+                             f.qualname, ctx.name, norm_stmt(s.node)[:50], need, path_text(f, wit or []))) if not ok else "%s resets references (%s)" % (f.qualname, how))
 
     # ---------------------------------------------------------------- Cpm
-    R.rule("Cpm", "in a parametric model every raw read of the lazily computed part of _data is dominated by the stale check / recalculation "
-                  "(directly or in all callers)", 5)
-    R.rule("Cpm-set", "parameters/x/support setters of parametric models set the stale flag", 4)
-    for ctx in classes:
-        if pm_mixin not in ctx.mro:
-            continue
-        is_xy = any(k.name == "XYContainer" for k in ctx.mro)
-        top = set(id(x) for x in cache.visible_functions(ctx))
-        for f in cache.visible_functions(ctx, with_shadowed=True):
-            if f.name in ("__init__", "_recalculate") or f.kind == "setter":
+    with R.guard("Cpm"):
+        R.rule("Cpm", "in a parametric model every raw read of the lazily computed part of _data is dominated by the stale check / recalculation "
+                      "(directly or in all callers)", 5)
+        R.rule("Cpm-set", "parameters/x/support setters of parametric models set the stale flag", 4)
+        for ctx in classes:
+            if pm_mixin not in ctx.mro:
                 continue
-            if f.qualname in EXEMPT_PM_READERS:
-                continue
-            if eng.absorbed(f):
-                continue  # a private helper that is written out at every call site of the canonical program is decided there
-            reads = _raw_lazy_reads(f, is_xy)
-            if not reads:
-                continue
-            if id(f) not in top and not cache.callers_of(eng, ctx, f):
-                continue  # overridden and never reached through super(): not executable on this class
-            g = eng.cfg(f)
-            for sub in reads:
-                ok, how = _dominated_by_stale_check(eng, ctx, f, g, sub, is_xy, depth=2)
-                R.ob("Cpm", "%s:%s" % (ctx.name, f.qualname), ok, eng.where(f, sub),
-                     "%s (as %s) reads model values %s that may not have been recomputed since the parameters changed" % (f.qualname, ctx.name, norm_stmt(sub)) if not ok
-                     else "%s guarded (%s)" % (f.qualname, how))
-        for pname in ("parameters", "x", "support"):
-            pr = ctx.find_prop(pname)
-            if pr is None or pr.fset is None:
-                continue
-            if pname == "x" and not is_xy:
-                continue
-            f = pr.fset
-            g = eng.cfg(f)
-            if g.exit.id not in g.reachable_from([g.entry.id], exceptional=False):
-                continue
+            is_xy = any(k.name == "XYContainer" for k in ctx.mro)
+            top = set(id(x) for x in cache.visible_functions(ctx))
+            for f in cache.visible_functions(ctx, with_shadowed=True):
+                if f.name in ("__init__", "_recalculate") or f.kind == "setter":
+                    continue
+                if f.qualname in EXEMPT_PM_READERS:
+                    continue
+                if eng.absorbed(f):
+                    continue  # a private helper that is written out at every call site of the canonical program is decided there
+                reads = _raw_lazy_reads(f, is_xy)
+                if not reads:
+                    continue
+                if id(f) not in top and not cache.callers_of(eng, ctx, f):
+                    continue  # overridden and never reached through super(): not executable on this class
+                g = eng.cfg(f)
+                for sub in reads:
+                    ok, how = _dominated_by_stale_check(eng, ctx, f, g, sub, is_xy, depth=2)
+                    R.ob("Cpm", "%s:%s" % (ctx.name, f.qualname), ok, eng.where(f, sub),
+                         "%s (as %s) reads model values %s that may not have been recomputed since the parameters changed" % (f.qualname, ctx.name, norm_stmt(sub)) if not ok
+                         else "%s guarded (%s)" % (f.qualname, how))
+            for pname in ("parameters", "x", "support"):
+                pr = ctx.find_prop(pname)
+                if pr is None or pr.fset is None:
+                    continue
+                if pname == "x" and not is_xy:
+                    continue
+                f = pr.fset
+                g = eng.cfg(f)
+                if g.exit.id not in g.reachable_from([g.entry.id], exceptional=False):
+                    continue
 
-            def sets_stale(n):
-                st = n.stmt
-                return n.kind == "stmt" and isinstance(st, ast.Assign) and any(self_attr(t) == "_pm_calculation_stale" for t in st.targets) and isinstance(st.value, ast.Constant) and st.value.value is True
+                def sets_stale(n):
+                    st = n.stmt
+                    return n.kind == "stmt" and isinstance(st, ast.Assign) and any(self_attr(t) == "_pm_calculation_stale" for t in st.targets) and isinstance(st.value, ast.Constant) and st.value.value is True
 
-            ok = eng.must_call(ctx, f, sets_stale)
-            R.ob("Cpm-set", "%s:%s" % (ctx.name, f.qualname), ok, eng.where(f), "%s (as %s) changes a model input without marking the model values stale" % (f.qualname, ctx.name))
+                ok = eng.must_call(ctx, f, sets_stale)
+                R.ob("Cpm-set", "%s:%s" % (ctx.name, f.qualname), ok, eng.where(f), "%s (as %s) changes a model input without marking the model values stale" % (f.qualname, ctx.name))
 
     # ---------------------------------------------------------------- Cfirst
-    R.rule("Cfirst", "_calculate_total_error brings lazily computed values up to date (reads self.data / self.x / self.y) before it sums the sources", 2)
-    for ctx in classes:
-        comp = ctx.find_method("_calculate_total_error")
-        if comp.cls is not ctx and any(c is comp.cls for c in classes):
-            continue  # inherited: checked on the defining class
-        g = eng.cfg(comp)
-        acc = [n for n in g.stmt_nodes() if n.kind == "stmt" and isinstance(n.stmt, ast.AugAssign) and ".cov_mat" in ast.unparse(n.stmt.value)]
-        if not acc:
-            raise AnalysisError("%s._calculate_total_error: accumulation of source covariance matrices not found" % comp.cls.name)
+    with R.guard("Cfirst"):
+        R.rule("Cfirst", "_calculate_total_error brings lazily computed values up to date (reads self.data / self.x / self.y) before it sums the sources", 2)
+        for ctx in classes:
+            comp = ctx.find_method("_calculate_total_error")
+            if comp.cls is not ctx and any(c is comp.cls for c in classes):
+                continue  # inherited: checked on the defining class
+            g = eng.cfg(comp)
+            acc = [n for n in g.stmt_nodes() if n.kind == "stmt" and isinstance(n.stmt, ast.AugAssign) and ".cov_mat" in ast.unparse(n.stmt.value)]
+            if not acc:
+                raise AnalysisError("%s._calculate_total_error: accumulation of source covariance matrices not found" % comp.cls.name)
 
-        def forces(n):
-            for part in n.ast_parts():
-                for sub in walk_no_nested(part):
-                    if isinstance(sub, ast.Attribute) and is_self(sub.value) and sub.attr in ("data", "x", "y") and isinstance(sub.ctx, ast.Load):
-                        return True
-            return False
+            def forces(n):
+                for part in n.ast_parts():
+                    for sub in walk_no_nested(part):
+                        if isinstance(sub, ast.Attribute) and is_self(sub.value) and sub.attr in ("data", "x", "y") and isinstance(sub.ctx, ast.Load):
+                            return True
+                return False
 
-        for n in acc:
-            ok, wit = g.dominated_by(n.id, forces)
-            R.ob("Cfirst", "%s:%s" % (comp.qualname, norm_stmt(n.stmt)), ok, eng.where(comp, n.stmt),
-                 "%s sums the sources before the (lazily recomputed) values they refer to are brought up to date" % comp.qualname)
+            for n in acc:
+                ok, wit = g.dominated_by(n.id, forces)
+                R.ob("Cfirst", "%s:%s" % (comp.qualname, norm_stmt(n.stmt)), ok, eng.where(comp, n.stmt),
+                     "%s sums the sources before the (lazily recomputed) values they refer to are brought up to date" % comp.qualname)
 
     # ---------------------------------------------------------------- D7 enabled guard
-    R.rule("D7", "every loop over error dictionaries that accumulates a covariance skips entries whose 'enabled' flag is false", 2)
-    for f in p.all_functions():
-        for loop in [n for n in ast.walk(f.node) if isinstance(n, ast.For)]:
-            it = ast.unparse(loop.iter)
-            if not ("_error_dicts" in it and ("values()" in it or "items()" in it)):
-                continue
-            accs = [n for n in ast.walk(loop) if isinstance(n, ast.AugAssign) and "cov_mat" in ast.unparse(n.value)]
-            if not accs:
-                continue
-            # decided on the canonical form: `if not e['enabled'] or <other>: continue`, nested ifs, a guard in a private helper are one thing there
-            cn = eng.cnode(f)
-            caccs = [n for lp in ast.walk(cn) if isinstance(lp, ast.For) and "_error_dicts" in ast.unparse(lp.iter) for n in ast.walk(lp) if isinstance(n, ast.AugAssign) and "cov_mat" in ast.unparse(n.value)]
-            if len(caccs) < len(accs):
-                raise AnalysisError("%s: accumulation over the error dictionaries not found in the canonical form" % f.qualname)
-            for a in caccs:
-                ok = _enabled_guarded_canonical(cn, a)
-                R.ob("D7", "%s:%s" % (f.qualname, norm_stmt(a)[:70]), ok, (f.file, a.lineno),
-                     "%s adds the covariance of a source without testing its 'enabled' flag: a disabled source still contributes" % f.qualname)
+    with R.guard("D7 enabled guard"):
+        R.rule("D7", "every loop over error dictionaries that accumulates a covariance skips entries whose 'enabled' flag is false", 2)
+        for f in p.all_functions():
+            for loop in [n for n in ast.walk(f.node) if isinstance(n, ast.For)]:
+                it = ast.unparse(loop.iter)
+                if not ("_error_dicts" in it and ("values()" in it or "items()" in it)):
+                    continue
+                accs = [n for n in ast.walk(loop) if isinstance(n, ast.AugAssign) and "cov_mat" in ast.unparse(n.value)]
+                if not accs:
+                    continue
+                # decided on the canonical form: `if not e['enabled'] or <other>: continue`, nested ifs, a guard in a private helper are one thing there
+                cn = eng.cnode(f)
+                caccs = [n for lp in ast.walk(cn) if isinstance(lp, ast.For) and "_error_dicts" in ast.unparse(lp.iter) for n in ast.walk(lp) if isinstance(n, ast.AugAssign) and "cov_mat" in ast.unparse(n.value)]
+                if len(caccs) < len(accs):
+                    raise AnalysisError("%s: accumulation over the error dictionaries not found in the canonical form" % f.qualname)
+                for a in caccs:
+                    ok = _enabled_guarded_canonical(cn, a)
+                    R.ob("D7", "%s:%s" % (f.qualname, norm_stmt(a)[:70]), ok, (f.file, a.lineno),
+                         "%s adds the covariance of a source without testing its 'enabled' flag: a disabled source still contributes" % f.qualname)
 
     # ---------------------------------------------------------------- Ccov
-    ERR = "kafe2.core.error"
-    CovMat = p.cls(ERR, "CovMat")
-    R.rule("Ccov", "every writer of CovMat._mat clears each derived cache (_chol, _inverse, _cor_mat, _cond)", 4)
-    invf = p.method(CovMat, "_invalidate_cache")
-    cache_fields = set()
-    for pr in CovMat.props.values():
-        if pr.fget is None:
-            continue
-        for n in pr.fget.node.body:
-            if isinstance(n, ast.If) and isinstance(n.test, ast.Compare) and len(n.test.ops) == 1 and isinstance(n.test.ops[0], ast.Is) \
-                    and isinstance(n.test.comparators[0], ast.Constant) and n.test.comparators[0].value is None and (self_attr(n.test.left) or '').startswith('_'):
-                cache_fields.add(self_attr(n.test.left))
-    cache_fields = sorted(cache_fields)
-    if len(cache_fields) < 3:
-        raise AnalysisError("CovMat._invalidate_cache: expected >=3 cache fields, found %s" % cache_fields)
-    R.info["CovMat cache fields"] = cache_fields
-    for k in cache_fields:
-        cache.check_writers_invalidate(eng, R, "Ccov", CovMat, {"_mat"}, cache.direct_invalidation_pred({k}), what="CovMat.%s cache" % k)
+    with R.guard("Ccov"):
+        ERR = "kafe2.core.error"
+        CovMat = p.cls(ERR, "CovMat")
+        R.rule("Ccov", "every writer of CovMat._mat clears each derived cache (_chol, _inverse, _cor_mat, _cond)", 4)
+        invf = p.method(CovMat, "_invalidate_cache")
+        cache_fields = set()
+        for pr in CovMat.props.values():
+            if pr.fget is None:
+                continue
+            for n in pr.fget.node.body:
+                if isinstance(n, ast.If) and isinstance(n.test, ast.Compare) and len(n.test.ops) == 1 and isinstance(n.test.ops[0], ast.Is) \
+                        and isinstance(n.test.comparators[0], ast.Constant) and n.test.comparators[0].value is None and (self_attr(n.test.left) or '').startswith('_'):
+                    cache_fields.add(self_attr(n.test.left))
+        cache_fields = sorted(cache_fields)
+        if len(cache_fields) < 3:
+            raise AnalysisError("CovMat._invalidate_cache: expected >=3 cache fields, found %s" % cache_fields)
+        R.info["CovMat cache fields"] = cache_fields
+        for k in cache_fields:
+            cache.check_writers_invalidate(eng, R, "Ccov", CovMat, {"_mat"}, cache.direct_invalidation_pred({k}), what="CovMat.%s cache" % k)
 
     # ---------------------------------------------------------------- Clazy: guard field == returned field
-    R.rule("Clazy", "lazy getters test the same field they return: `if self.K is None: compute` followed by `return self.K[...]`", 10)
-    for cname in ("CovMat", "SimpleGaussianError", "MatrixGaussianError"):
-        c = p.cls(ERR, cname)
-        for pname, pr in sorted(c.props.items()):
-            f = pr.fget
-            if f is None or f.cls is not c:
-                continue
-            _check_lazy_getter(eng, R, f)
-    for m, n, meth in (("kafe2.fit._base.container", "DataContainerBase", "get_total_error"), ("kafe2.fit.xy.container", "XYContainer", "get_total_error")):
-        _check_lazy_getter(eng, R, p.method(p.cls(m, n), meth))
+    with R.guard("Clazy: guard field == returned field"):
+        R.rule("Clazy", "lazy getters test the same field they return: `if self.K is None: compute` followed by `return self.K[...]`", 10)
+        for cname in ("CovMat", "SimpleGaussianError", "MatrixGaussianError"):
+            c = p.cls(ERR, cname)
+            for pname, pr in sorted(c.props.items()):
+                f = pr.fget
+                if f is None or f.cls is not c:
+                    continue
+                _check_lazy_getter(eng, R, f)
+        for m, n, meth in (("kafe2.fit._base.container", "DataContainerBase", "get_total_error"), ("kafe2.fit.xy.container", "XYContainer", "get_total_error")):
+            _check_lazy_getter(eng, R, p.method(p.cls(m, n), meth))
 
     # ---------------------------------------------------------------- Cref: reference setter invalidates the opposite representation
-    R.rule("Cref", "GaussianErrorBase.reference setter clears the absolute caches of a relative source and the relative caches of an absolute source", 4)
-    base = p.cls(ERR, "GaussianErrorBase")
-    f = p.prop(base, "reference").fset
-    want = {True: {"_cov_mat", "_err"}, False: {"_cov_mat_rel", "_err_rel"}}
-    got = {True: set(), False: set()}
-    for n in ast.walk(f.node):
-        if isinstance(n, ast.Assign) and isinstance(n.value, ast.Constant) and n.value.value is None:
-            for t in n.targets:
-                a = self_attr(t)
-                if a in ("_cov_mat", "_err", "_cov_mat_rel", "_err_rel"):
-                    nf = common.conj_normal_form(common.guard_conditions(f.node, n))
-                    rel = {pol for atom, pol in nf if atom in ("relative", "is_relative")}
-                    if not rel:
-                        got[True].add(a)
-                        got[False].add(a)
-                    else:
-                        for pol in rel:
-                            got[pol].add(a)
-    for pol in (True, False):
-        for a in sorted(want[pol]):
-            R.ob("Cref", "reference.fset:%s:relative=%s" % (a, pol), a in got[pol], eng.where(f),
-                 "reference setter does not clear %s for a source with relative=%s: the cached %s covariance keeps the old reference" % (a, pol, "absolute" if pol else "relative"))
-    # the stores of the new reference happen on every path
-    g = eng.cfg(f)
+    with R.guard("Cref: reference setter invalidates the opposite representati"):
+        R.rule("Cref", "GaussianErrorBase.reference setter clears the absolute caches of a relative source and the relative caches of an absolute source", 4)
+        base = p.cls(ERR, "GaussianErrorBase")
+        f = p.prop(base, "reference").fset
+        want = {True: {"_cov_mat", "_err"}, False: {"_cov_mat_rel", "_err_rel"}}
+        got = {True: set(), False: set()}
+        for n in ast.walk(f.node):
+            if isinstance(n, ast.Assign) and isinstance(n.value, ast.Constant) and n.value.value is None:
+                for t in n.targets:
+                    a = self_attr(t)
+                    if a in ("_cov_mat", "_err", "_cov_mat_rel", "_err_rel"):
+                        nf = common.conj_normal_form(common.guard_conditions(f.node, n))
+                        rel = {pol for atom, pol in nf if atom in ("relative", "is_relative")}
+                        if not rel:
+                            got[True].add(a)
+                            got[False].add(a)
+                        else:
+                            for pol in rel:
+                                got[pol].add(a)
+        for pol in (True, False):
+            for a in sorted(want[pol]):
+                R.ob("Cref", "reference.fset:%s:relative=%s" % (a, pol), a in got[pol], eng.where(f),
+                     "reference setter does not clear %s for a source with relative=%s: the cached %s covariance keeps the old reference" % (a, pol, "absolute" if pol else "relative"))
+        # the stores of the new reference happen on every path
+        g = eng.cfg(f)
 
-    def stores_ref(n):
-        st = n.stmt
-        return n.kind == "stmt" and isinstance(st, ast.Assign) and any(self_attr(t) == "_reference" for t in st.targets)
+        def stores_ref(n):
+            st = n.stmt
+            return n.kind == "stmt" and isinstance(st, ast.Assign) and any(self_attr(t) == "_reference" for t in st.targets)
 
-    ok, _ = g.all_paths_pass(g.entry.id, stores_ref)
-    R.ob("Cref", "reference.fset:store", ok, eng.where(f), "reference setter does not store the new reference on every path")
+        ok, _ = g.all_paths_pass(g.entry.id, stores_ref)
+        R.ob("Cref", "reference.fset:store", ok, eng.where(f), "reference setter does not store the new reference on every path")
 
-    _source_formulas(eng, R)
-
+        _source_formulas(eng, R)
 
 def _reaches_reset(eng, ctx, f, g, node, need, depth):
     loops = _is_reference_reset_loop(eng, f, g)
